@@ -392,6 +392,19 @@ def rule_enc_utf8(P):
         for name, (st, codec, sym) in src.items():
             ok = codec is not None and str(codec).lower().replace("_", "-") in ("utf-8", "utf8")
             r.add(f, st, ok, "" if ok else f"`{first_line(st)}` does not encode with UTF-8")
+            # the whole symbol is encoded at once: the receiver is the body symbol / arc label itself, not a character of it
+            piece = None
+            for a_ in ancestors(st):
+                if isinstance(a_, ast.For) and W.is_name(a_.target, sym) and isinstance(a_.iter, ast.Name):
+                    outer_syms = [b_ for b_ in ancestors(a_) if isinstance(b_, ast.For) and any(isinstance(t_, ast.Name) and t_.id == a_.iter.id for t_ in ast.walk(b_.target))]
+                    if outer_syms:
+                        piece = (a_, outer_syms[0])
+            if piece is not None:
+                inner, outer_ = piece
+                leaks = [x for x in walk_live(outer_) if isinstance(x, ast.Name) and x.id == name and isinstance(x.ctx, ast.Load) and not W._within(x, inner)]
+                if leaks:
+                    r.add(f, st, False, f"`{first_line(st)}` encodes one character `{sym}` of the symbol `{inner.iter.id}` per iteration, and `{name}` is read after that "
+                          f"loop (line {leaks[0].lineno}): only the bytes of the last character reach the result", construct=f"{f.name}: symbol encoded piecewise")
 
         def from_src(e):
             if isinstance(e, ast.Name) and e.id not in src:
@@ -563,5 +576,37 @@ def rule_deadstates(P):
             r.undecided(f, st, f"`{first_line(st)}`: computation of `{live}` not recognised", construct="interegular_to_wfsa: dead states")
     else:
         r.undecided(f, st, f"`{first_line(st)}` not recognised", construct="interegular_to_wfsa: dead states")
+    r.min_instances = 1
+    return r
+
+
+# ---------------------------------------------------------------- LARK-VOCAB
+
+
+def rule_lark_vocab(P):
+    r = RuleResult("LARK-VOCAB", "LarkStuff.convert declares every lark terminal as a terminal of the token-level grammar "
+                   "(V = {t.name for t in self.terminals}, unfiltered): a terminal left out of V but mentioned by a rule (an %ignore'd "
+                   "terminal that a rule also uses explicitly) is taken for a nonterminal, renumber() renames it, and _char_cfg's "
+                   "`N<name>` link to its character-level automaton no longer matches", "terminal names keep denoting the lexer's terminals")
+    f = P.func("lark_interface.py::LarkStuff.convert")
+    r.looked_at(f)
+    ctor = [c for c in walk_live(f.node) if isinstance(c, ast.Call) and W.call_name(c) == "CFG" and any(k.arg == "V" for k in c.keywords)]
+    if len(ctor) != 1:
+        r.undecided(f, f.node, f"{len(ctor)} CFG(..., V=...) constructions in convert", construct="convert: token vocabulary")
+        return r
+    v = next(k.value for k in ctor[0].keywords if k.arg == "V")
+    if isinstance(v, ast.Name):
+        d = W.single_def(f.node, v.id)
+        v = d if d is not None else v
+    if isinstance(v, ast.Call) and W.call_name(v) in ("set", "frozenset") and len(v.args) == 1:
+        v = v.args[0]
+    if isinstance(v, (ast.SetComp, ast.GeneratorExp, ast.ListComp)) and len(v.generators) == 1 and norm(v.generators[0].iter) == "self.terminals" \
+            and isinstance(v.generators[0].target, ast.Name) and norm(v.elt) == f"{v.generators[0].target.id}.name":
+        ok = not v.generators[0].ifs
+        r.add(f, ctor[0], ok, "" if ok else f"V leaves out the terminals failing `{norm(v.generators[0].ifs[0])}`; a rule may still mention them "
+              f"(lark keeps an %ignore'd terminal that is used explicitly), and then they are nonterminals of the token grammar",
+              construct="convert: token vocabulary", slots=dict(V=norm(v)))
+    else:
+        r.undecided(f, ctor[0], f"V = `{norm(v)}` is not a comprehension over self.terminals", construct="convert: token vocabulary")
     r.min_instances = 1
     return r
